@@ -723,18 +723,24 @@ def regByName : String → Option Reg
 /-- names of the named replacement fields of a format string (`string.Formatter().parse`):
 the text between `{` and the first of `}`, `:`, `!`; `{{` and `}}` are literal braces; empty
 and all-digit names are positional.  Nested fields inside a format spec are not looked at. -/
-def fieldNamesAux : Nat → List Char → List String
+def fieldsAux : Nat → List Char → List String
   | 0, _ => []
   | _, [] => []
-  | n + 1, '{' :: '{' :: rest => fieldNamesAux n rest
+  | n + 1, '{' :: '{' :: rest => fieldsAux n rest
   | n + 1, '{' :: rest =>
     let name := rest.takeWhile fun c => c != '}' && c != ':' && c != '!'
     let after := (rest.dropWhile (· != '}')).drop 1
-    if name.isEmpty || name.all Char.isDigit then fieldNamesAux n after
-    else String.ofList name :: fieldNamesAux n after
-  | n + 1, _ :: rest => fieldNamesAux n rest
+    String.ofList name :: fieldsAux n after
+  | n + 1, _ :: rest => fieldsAux n rest
 
-def fieldNames (cs : List Char) : List String := fieldNamesAux (cs.length + 1) cs
+/-- the field names of a format string, in order; `""` and all-digit names are positional -/
+def fields (cs : List Char) : List String := fieldsAux (cs.length + 1) cs
+
+def isPositional (n : String) : Bool := n.isEmpty || n.toList.all Char.isDigit
+
+def fieldNames (cs : List Char) : List String := (fields cs).filter (!isPositional ·)
+
+def positionalCount (cs : List Char) : Nat := ((fields cs).filter isPositional).length
 
 def execInstr (img : Image) (s : State) (i : Instr) : State :=
   match i with
@@ -852,18 +858,24 @@ def execInstr (img : Image) (s : State) (i : Instr) : State :=
     | .literal => { s with unnamed := s.unnamed ++ [s.read a] }
     | .register => { s with unnamed := s.unnamed ++ [s.read a] }
     | .print =>
-      match s.unnamed with
-      | v :: _ => { (s.emit (.out v)) with unnamed := [] }
-      | [] => s
+      match s.unnamed.getLast? with
+      | some v => { (s.emit (.out v)) with unnamed := s.unnamed.dropLast }
+      | none => s
     | .printEnd => s.emit .newline
     | .printf =>
       match a with
       | .lit (.str fmt) =>
-        let named := (fieldNames fmt.toList).map fun n =>
-          (n, match regByName n with
-              | some r => s.regs r
-              | none => s.getVariable n)
-        { (s.emit (.outFmt fmt s.unnamed named)) with unnamed := [] }
+        -- `\\n` in the source text is a line break; fields are counted after the replacement
+        let cs := (fmt.replace "\\n" "\n").toList
+        let named := (fieldNames cs).map fun n =>
+          (n, match s.getVariable n with
+              | .none => (match regByName n with
+                  | some r => s.regs r
+                  | none => .none)
+              | v => v)
+        let k := positionalCount cs
+        let first := s.unnamed.length - k
+        { (s.emit (.outFmt fmt (s.unnamed.drop first) named)) with unnamed := s.unnamed.take first }
       | _ => s.fault "PRINTF without a format string"
   | .timePattern isInit p =>
     match isInit, p, s.regs .time with
@@ -893,6 +905,9 @@ def finish (s : State) : State :=
   | .halted =>
     let s1 := s.unnamed.foldl (fun st v => st.emit (.out v)) s
     { (s1.emit .flush) with unnamed := [] }
+  | .fault _ =>
+    -- the catch-all of `Machine.run`: pending values are dropped, the sink is flushed
+    { (s.emit .flush) with unnamed := [] }
   | _ => s
 
 def run (img : Image) (fuel : Nat) (s : State) : State :=
